@@ -14,7 +14,7 @@
 (*       which each of its fields - taken independently - admits the       *)
 (*       dangerous value                                                   *)
 (***************************************************************************)
-EXTENDS PathSem, Json, IOUtils, TLC, SequencesExt
+EXTENDS PathSem, PathReach, Json, IOUtils, TLC, SequencesExt
 
 Data  == JsonDeserialize(IOEnv.OBS_FILE)
 Cases == Data.cases
@@ -70,28 +70,7 @@ Violations(c) ==
         goodT == TLCEval([k \in 1..Len(DetectorNames) |-> TLCEval([b \in G.ids |-> goodAt(DetectorNames[k], b)])])
         detIx(d) == CHOOSE k \in 1..Len(DetectorNames) : DetectorNames[k] = d
         good(d, b) == goodT[detIx(d)][b]
-        regions == [nm \in G.subNames \cup {"__main__"} |->
-                      IF nm = "__main__" THEN [entry |-> 0, bs |-> G.mainBlocks]
-                      ELSE [entry |-> G.subEntry[nm], bs |-> G.subBlocks[nm]]]
-        Round(d, canRet, canAcc) ==
-            [nm \in DOMAIN regions |->
-               LET R == regions[nm]
-                   step == TLCEval([b \in R.bs |->
-                              IF ~good(d, b) THEN {}
-                              ELSE IF IsCallBlock(G, P, b)
-                                   THEN (IF canRet[Callee(G, P, b)] /\ ReturnPoint(G, b) # -1 THEN { ReturnPoint(G, b) } ELSE {})
-                                   ELSE SuccSet(G, b)])
-                   reach == IF good(d, R.entry) THEN ReachSets(R.bs, step)[R.entry] ELSE {}
-               IN [ret |-> \E b \in reach : good(d, b) /\ IsRetsubBlock(G, P, b),
-                   acc |-> \E b \in reach : good(d, b) /\ (IsLeaf(G, P, b)
-                                                            \/ (IsCallBlock(G, P, b) /\ canAcc[Callee(G, P, b)]))]]
-        Reportable(d) ==
-            LET z  == [nm \in DOMAIN regions |-> FALSE]
-                r1 == Round(d, z, z)
-                r2 == Round(d, [nm \in DOMAIN regions |-> r1[nm].ret], [nm \in DOMAIN regions |-> r1[nm].acc])
-                r3 == Round(d, [nm \in DOMAIN regions |-> r2[nm].ret], [nm \in DOMAIN regions |-> r2[nm].acc])
-                r4 == Round(d, [nm \in DOMAIN regions |-> r3[nm].ret], [nm \in DOMAIN regions |-> r3[nm].acc])
-            IN r4["__main__"].acc
+        Reportable(d) == CanFinish(G, P, goodT[detIx(d)])
     IN
     IF ~O.ok THEN << >> ELSE
        ForEach(blocks, LAMBDA b :
